@@ -17,7 +17,7 @@ MAYPANIC = [
     (re.compile(r'::split_at$|::split_at_mut$|::split_off$'), 'split_at'),
     (re.compile(r'::copy_within$|::copy_from_slice$|::clone_from_slice$|::swap$'), 'slice-range'),
     (re.compile(r'Vec::insert$|String::insert$|String::insert_str$|Vec::remove$|Vec::swap_remove$|String::remove$|Vec::drain$|String::drain$|String::replace_range$|Vec::splice$|::rotate_left$|::rotate_right$'), 'vec-index'),
-    (re.compile(r'core::num::abs$|core::num::pow$|core::num::next_power_of_two$|core::num::div_euclid$|core::num::rem_euclid$|core::num::ilog10$|core::num::ilog2$|core::num::ilog$'), 'int-overflowing-fn'),
+    (re.compile(r'(?:core|std)::num::abs$|(?:core|std)::num::pow$|(?:core|std)::num::next_power_of_two$|(?:core|std)::num::div_euclid$|(?:core|std)::num::rem_euclid$|(?:core|std)::num::ilog10$|(?:core|std)::num::ilog2$|(?:core|std)::num::ilog$'), 'int-overflowing-fn'),
     (re.compile(r'::str::repeat$|::chunks$|::chunks_exact$|::rchunks$|::windows$|Iterator::step_by$'), 'size-arg'),
     (re.compile(r'from_str_radix$|to_radix_le$|to_radix_be$|to_str_radix$|from_radix_le$|from_radix_be$|char::from_digit$|::to_digit$'), 'radix'),
     (re.compile(r'RefCell::borrow$|RefCell::borrow_mut$'), 'refcell'),
